@@ -103,6 +103,10 @@ func genC05(tier string, r *rng) {
 	for rep := 0; rep < reps; rep++ {
 		for _, server := range []bool{true, false} {
 			st := sideOf(server)
+			if rep%2 == 1 {
+				// "extensions negotiated" (StateExtended) lifts the RSV rule and nothing else
+				st |= int(ws.StateExtended)
+			}
 			// prefixes: 0..2 complete valid units, optionally followed by an open fragmented message
 			for npre := 0; npre <= 2; npre++ {
 				for _, open := range []bool{false, true} {
